@@ -56,6 +56,8 @@ type storeUniverse struct {
 	Sets       []*ketoapi.SubjectSet `json:"subject_sets"`
 }
 
+var uuidSpellings = []string{"6ba7b810-9dad-11d1-80b4-00c04fd430c8", "6BA7B810-9DAD-11D1-80B4-00C04FD430C8", "6ba7b8109dad11d180b400c04fd430c8", "{6ba7b810-9dad-11d1-80b4-00c04fd430c8}", "urn:uuid:6ba7b810-9dad-11d1-80b4-00c04fd430c8", "6Ba7b810-9dad-11d1-80b4-00c04fd430c8"}
+
 var storeNSPool = []string{"User", "Doc", "a-b", "n s", "Группа", "Org", "x", "Doc2", "doc"}
 
 func advShort(r *rand.Rand, max int) string {
@@ -94,7 +96,12 @@ func genStoreUniverse(r *rand.Rand) *storeUniverse {
 		return out
 	}
 	u.Objects = distinct([]string{"o0", "o1", pickS(r, []string{"o2", advShort(r, 120), pickS(r, advPool), "u0", ""})})
-	u.Relations = distinct([]string{"r0", pickS(r, []string{"r1", "members", ""}), pickS(r, []string{"r1", advShort(r, 60), pickS(r, advPool), "R0", "r0 "})})
+	if r.IntN(6) == 0 {
+		// names shaped like a UUID, several spellings of the same one: different names
+		sp := shuffled(r, uuidSpellings)
+		u.Objects = distinct([]string{sp[0], sp[1], "o0"})
+	}
+	u.Relations = distinct([]string{"r0", pickS(r, []string{"r1", "members", "", ""}), pickS(r, []string{"r1", advShort(r, 60), pickS(r, advPool), "R0", "r0 ", "...", "..."})})
 	u.SubjectIDs = distinct([]string{"u0", "u1", pickS(r, []string{"u2", "o0", advShort(r, 120), pickS(r, advPool), ""})})
 	nSets := 3 + r.IntN(2)
 	for i := 0; i < nSets; i++ {
